@@ -65,12 +65,18 @@ def _l1_layout(si: int, mate: int, nm: int, seq: str) -> bool:
     pre: 0 <= mate <= 1
     pre: 1 <= nm <= 2
     pre: mate < nm
-    pre: len(seq) <= 40
+    pre: len(seq) <= 64
     post: _
     """
     name = pick(FIXED, si)
     strat = STRATS[name]
-    return S.layout_clause(strat, _recs(mate, seq, nm), BDM.fastqHeaderSafeQualitiesToPhred) is None
+    PARSER.min_len = sum(n for (_, _, n) in S.LAYOUTS[name]['bc'])      # a truncated barcode is in no whitelist
+    try:
+        return S.layout_clause(strat, _recs(mate, seq, nm), BDM.fastqHeaderSafeQualitiesToPhred) is None
+    except BDM.NonMultiplexable:
+        return True        # a rejected pair is outside C02 (C01 owns conservation)
+    finally:
+        PARSER.min_len = 0
 
 
 CONTENT = [n for n in NAMES if S.LAYOUTS[n].get('content')]
@@ -156,7 +162,7 @@ PROPERTY = dict(
             'thorough': dict(symbolic='lengths insert_start+8, +1, -1 and 0')},
     outside=['inserts longer than insert_start+8 (slices are length-parametric: argument only)', 'the amount trimmed by content-dependent strategies',
              'symbolic qualities (concrete distinct characters are used; the codec is C04)'],
-    assumptions=['StubBarcodeParser accepts every barcode and returns it unchanged (C03 owns the real parser)',
+    assumptions=['StubBarcodeParser accepts every full-length barcode (a truncated one is in no whitelist and is rejected) and returns a corrected barcode that differs from the raw one (C03 owns the real parser)',
                  'spec/layouts.py is the specification (written from the protocol descriptions)'],
     trusted=['spec/layouts.py', 'stubs/stubparser.py'],
 )
